@@ -333,6 +333,23 @@ def run_enum_chunk(sub: Sub, cases: list) -> ShardResult:
     return rec.res
 
 
+def _find_violation(e, depth=0):
+    if isinstance(e, Violation):
+        return e
+    if depth > 6 or e is None:
+        return None
+    for sub_e in getattr(e, "exceptions", ()) or ():
+        v = _find_violation(sub_e, depth + 1)
+        if v is not None:
+            return v
+    for nxt in (e.__cause__, e.__context__):
+        if nxt is not None and nxt is not e:
+            v = _find_violation(nxt, depth + 1)
+            if v is not None:
+                return v
+    return None
+
+
 def run_machine_shard(sub: Sub, n: int, steps: int, seed: int, shrink: bool = True) -> ShardResult:
     """Run a RuleBasedStateMachine; the machine keeps ``self.log`` (JSON steps).
 
@@ -371,21 +388,24 @@ def run_machine_shard(sub: Sub, n: int, steps: int, seed: int, shrink: bool = Tr
                 "case": to_jsonable(lf if lf is not None else {"steps": None}),
             }
         )
-    except Exception as e:  # noqa: BLE001
-        # hypothesis wraps nothing: a Violation raised in a rule arrives as itself.  Others:
-        cause = e
-        seen = 0
-        while cause is not None and not isinstance(cause, Violation) and seen < 5:
-            cause = cause.__cause__ or cause.__context__
-            seen += 1
-        if isinstance(cause, Violation):
+    except BaseException as e:  # noqa: BLE001
+        if isinstance(e, (KeyboardInterrupt, SystemExit)):
+            raise
+        # a Violation raised in a rule normally arrives as itself; when the failure does not reproduce identically on
+        # Hypothesis' re-run (e.g. process-level state leaked by the code under test) it arrives inside a FlakyFailure /
+        # ExceptionGroup: the violations it contains still count
+        found = _find_violation(e)
+        if found is not None:
             lf = cls.stats.get("last_fail")
-            res.failure_counts[cause.clause] += 1
+            res.failure_counts[found.clause] += 1
             res.failures.append(
-                {"sub": sub.name, "clause": cause.clause, "message": cause.message[:2000], "case": to_jsonable(lf)}
+                {"sub": sub.name, "clause": found.clause, "message": (found.message + " [reported by Hypothesis as flaky: the outcome depends on earlier cases in the same process]")[:2000],
+                 "case": to_jsonable(lf if lf is not None else {"steps": None})}
             )
         else:
-            res.errors.append({"sub": sub.name, "traceback": traceback.format_exc()[-3000:], "case": to_jsonable(cls.stats.get("last_fail"))})
+            tb = traceback.format_exc()
+            res.errors.append({"sub": sub.name, "traceback": f"{type(e).__name__}: {str(e)[:600]}\n[...]\n" + tb[:1500] + "\n[...]\n" + tb[-1500:],
+                               "case": to_jsonable(cls.stats.get("last_fail"))})
     res.evaluations = cls.stats["runs"]
     res.nontrivial = set(cls.stats["nontrivial"])
     res.tags = Counter(cls.stats["tags"])
